@@ -3,5 +3,5 @@ namespace Updog.Facts
 open Updog.Generated
 /-- schema and row counter are written in the last transaction; the big writer commits the output once;
     OpenIndex rejects files without bucket/schema/counter -/
-theorem C06_facts : headerInLastTxMem = true ∧ flushWritesInPlace = true ∧ bigSingleOutputCommit = true ∧ openValidates = true ∧ 1 ≤ batchMem := by decide
+theorem C06_facts : headerInLastTxMem = true ∧ flushWritesInPlace = true ∧ createShape = true ∧ bigSingleOutputCommit = true ∧ openValidates = true ∧ 1 ≤ batchMem := by decide
 end Updog.Facts
